@@ -710,12 +710,7 @@ def check_char_boundary(I, s, pos, what):
             raise PathEnd('panic', what + ': not a char boundary')
         return
     bad = z3.And(z3.UGE(b.e, z3.BitVecVal(0x80, 8)), z3.ULE(b.e, z3.BitVecVal(0xBF, 8)))
-    if I.report('panic', what + ': byte index is not a char boundary', bad):
-        I.model = None
-    if not I.check(z3.Not(bad)):
-        raise PathEnd('panic', what + ': not a char boundary')
-    I.model = I.solver.model()
-    I.add(z3.Not(bad))
+    I.require(z3.Not(bad), 'panic', what + ': byte index is not a char boundary')
 
 
 def do_index(I, seq, idx, what, mutable=False):
@@ -727,12 +722,7 @@ def do_index(I, seq, idx, what, mutable=False):
             if okc is False:
                 I.report('panic', '%s: range out of bounds' % what)
                 raise PathEnd('panic', '%s: range %r..%r out of bounds of %d' % (what, st, en, s.length))
-            if I.report('panic', '%s: range can be out of bounds' % what, z3.Not(okc.e)):
-                I.model = None
-            if not I.check(okc.e):
-                raise PathEnd('panic', what + ': range out of bounds')
-            I.model = I.solver.model()
-            I.add(okc.e)
+            I.require(okc.e, 'panic', '%s: range can be out of bounds' % what)
         a = conc_index(I, st, 'range start')
         b = conc_index(I, en, 'range end')
         if s.is_str:
@@ -744,12 +734,7 @@ def do_index(I, seq, idx, what, mutable=False):
         if okc is False:
             I.report('panic', '%s: index out of bounds' % what)
             raise PathEnd('panic', '%s: index %r out of bounds of %d' % (what, idx, s.length))
-        if I.report('panic', '%s: index can be out of bounds' % what, z3.Not(okc.e)):
-            I.model = None
-        if not I.check(okc.e):
-            raise PathEnd('panic', what + ': index out of bounds')
-        I.model = I.solver.model()
-        I.add(okc.e)
+        I.require(okc.e, 'panic', '%s: index can be out of bounds' % what)
     i = conc_index(I, idx)
     return Ref(s.arr.elems, s.start + i)
 
